@@ -194,7 +194,7 @@ def oracle_c01(g, scfg, originals, stage):
 
 def oracle_c03(g, scfg, originals, stage):
     flat = M.Flat(scfg)
-    M.check_structure(scfg, flat)
+    M.check_structure(scfg, flat, g)
     two_way = any(len(v) == 2 for v in g.values())
     cyc = any(len(c) > 1 or next(iter(c)) in g[next(iter(c))] for c in gg.sccs(g))
     return two_way and cyc, dict(regions=len(flat.regions))
